@@ -23,3 +23,6 @@ def run(ctx):
     ctx.guard(order_independence_rule, ctx, "C03.order-independence")
     from ..rules_misc import collect_walk_effects, consistent_equality_rule
     ctx.guard(consistent_equality_rule, ctx, "C03.one-equality", collect_walk_effects(ctx))
+    from ..rules_misc import warning_filter_rule, error_carriers_rule
+    ctx.guard(warning_filter_rule, ctx, "C03.warning-reaches-caller")
+    ctx.guard(error_carriers_rule, ctx, "C03.error-carriers")
